@@ -1,6 +1,7 @@
 package main
 
 import (
+	"fmt"
 	"go/ast"
 	"go/token"
 	"go/types"
@@ -222,6 +223,7 @@ func checkC04(w *World, r *Report) {
 	r.floor("C04.recover-total", "recover handlers (_recover, malRecover)", len(handlers), 2)
 
 	ctorRule(w, r, "C04.ctor")
+	doPrecondRule(w, r, e)
 	r.floor("C04.site", "may-panic sites in the evaluator closure", r.count("C04.site"), 50)
 	r.Notes = append(r.Notes, "closure: "+closureNames(w, a.closure), "barriers: "+barrierNames(w, a))
 	r.Assumptions = append(r.Assumptions,
@@ -303,4 +305,49 @@ func checkC05(w *World, r *Report) {
 		"the tokenizer github.com/jig/scanner v1.2.0 terminates on every input and returns well-formed tokens (read once: every Scan consumes at least one rune or returns EOF)",
 		"regexp, strconv and strings functions do not panic on arbitrary strings",
 		"stack exhaustion on pathologically deep nesting is outside the claim")
+}
+
+
+// doPrecondRule: the body helper slices its list from index `from`; every call site must have established
+// that the list has at least `from` elements (this is what the exemption of the slice inside the helper
+// relies on).
+func doPrecondRule(w *World, r *Report, e *Engine) {
+	r.rule("C04.precond", "every call of the body helper passes a list that provably has at least `from` elements at the call site (the helper's own slice lst[from:len+to] relies on it)")
+	m := newEvalModel(w, e)
+	if !m.ok {
+		r.undecided("C04.precond", nil, "evaluator model", token.NoPos, m.why)
+		return
+	}
+	listT := types.TypeString(w.ByPath[modPath+"/types"].Types.Scope().Lookup("List").Type(), nil)
+	n := 0
+	for _, ec := range m.evalCalls() {
+		if ec.callee != m.doFn {
+			continue
+		}
+		n++
+		var fromV ssa.Value
+		for i, p := range m.doFn.Params {
+			if isIntType(p.Type()) && fromV == nil {
+				fromV = ec.call.Call.Args[i]
+			}
+		}
+		k, isConst := fromV.(*ssa.Const)
+		construct := "list passed to the body helper in " + nz(m.regionOf(ec.call.Block()), "-")
+		if !isConst || k.Value == nil {
+			r.bad("C04.precond", ec.fn, construct, ec.call.Pos(), "`from` is not a constant")
+			continue
+		}
+		if k.Int64() == 0 {
+			r.ok("C04.precond", ec.fn, construct, ec.call.Pos(), "from = 0")
+			continue
+		}
+		key := e.keyOf(ec.ast)
+		if !strings.HasSuffix(key.Path, ".("+listT+")") {
+			key.Path += ".(" + listT + ")"
+		}
+		key.Path += ".Val"
+		ok, why := e.proveLE(fromV, 0, Term{Kind: 1, K: key}, 0, ec.call.Block())
+		r.check(ok, "C04.precond", ec.fn, construct, ec.call.Pos(), fmt.Sprintf("len >= %d: %s", k.Int64(), why), fmt.Sprintf("the form is not known to have %d elements here (%s): the helper would slice beyond the list and panic", k.Int64(), why))
+	}
+	r.floor("C04.precond", "calls of the body helper", n, 4)
 }
